@@ -913,6 +913,10 @@ pub fn gen_c13(seed: u64, _thorough: bool) -> Case {
     let fam = seed % 8;
     let mut case = Case::new("C13", "", seed, Mode::Session);
     // roots whose search does not end by itself within the budget, and (1 in 5) roots that do
+    if rng.chance(1, 4) {
+        // GUIs with classical time controls add `movestogo N` to the clock parameters
+        case.tags.push(format!("movestogo={}", *rng.pick(&[1u32, 1, 2, 5, 10, 20, 40])));
+    }
     let r = if rng.chance(1, 5) {
         *rng.pick(&["single-reply", "single-reply-b", "mate-in-1", "mate-in-1-b", "mated", "stalemated"])
     } else {
